@@ -12,6 +12,7 @@ func (self Compiler) CurrFn() *Function { return self.modules[self.currModule][s
 
 func (self Compiler) currLoop() Loop { return self.loops[len(self.loops)-1] }
 func (self *Compiler) pushLoop(l Loop) {
+	l.tryDepth = self.tryDepth
 	self.loops = append(self.loops, l)
 }
 func (self *Compiler) popLoop() {
